@@ -15,7 +15,7 @@ def sh(cmd, cwd=None, timeout=3600):
 
 
 def confirm(wt, sid):
-    src = '/tmp/wt/%s' % wt
+    src = os.path.join(os.environ.get('MUT_BASE', '/tmp/wt2'), wt)
     prop = wt[:3]
     demo = [f for f in os.listdir(src) if f.startswith('demo_') and f.endswith('.py')][0]
     dst = os.path.join(VERIF, 'seeded', sid)
